@@ -435,10 +435,19 @@ def gen_ec(r, tier, f, focus):
       # a batch made only of identical keys (possibly in different encodings)
       choices = ["CheckECKeySmallDifference", "CheckValidECKey"]
       if budget >= 1:
-        choices += ["CheckWeakECPrivateKey", "CheckWeakECPrivateKey"]
+        choices += ["CheckWeakECPrivateKey", "CheckWeakECPrivateKey", "ALL",
+                    "ALL"]
       name = r.choice(choices)
-      if name == "CheckWeakECPrivateKey":
+      if name in ("CheckWeakECPrivateKey", "ALL"):
         budget -= 1
+      if name == "ALL":
+        extra = [j for j in range(n) if j not in dups and
+                 pool[j]["curve"] == pool[dups[0]]["curve"]][:r.randint(0, 2)]
+        b = list(dups) + extra
+        r.shuffle(b)
+        ops.append({"op": "check_all", "batch": b, "log_level": 0,
+                    "oracle": []})
+        continue
       ops.append({"op": "check", "batch": list(dups), "oracle": [],
                   "check": {"name": name, "how": "registry", "via": "all"}})
       continue
@@ -653,9 +662,20 @@ def _ecdsa_pool(r, f, focus, max_diff=256):
       add_group(iss.biased(r, kind), 2)
   if "u2f" in enabled:
     c = r.choice(curves)
+    if c.bits % 32 != 0 and r.random() < 0.7:
+      c = A.curve_by_name(r.choice(["secp224r1", "secp256r1",
+                                    "brainpoolP256r1"]))
     if c.bits % 32 == 0:
       iss = A.Issuer(r, c, "I%d" % label)
       add_group(iss.u2f(r, 2, negative=r.random() < 0.4), 1)
+      if r.random() < 0.6:
+        # a signature on a larger curve: anything sized by 'the largest curve
+        # seen so far' must not leak into the smaller one
+        big = A.curve_by_name(r.choice(["secp384r1", "brainpoolP384r1",
+                                        "brainpoolP512r1", "secp521r1"]))
+        if big.bits > c.bits:
+          iss = A.Issuer(r, big, "I%d" % label)
+          add_group(iss.healthy(r, 1), None)
   if "weak_key" in enabled:
     c = r.choice(curves)
     wk = ec_weak_priv_spec(r, c)
@@ -850,6 +870,22 @@ def gen_ecdsa(r, tier, f, focus):
                   if cname == "CheckLCGNonceGMP" and r.random() < f["oracle"]
                   else []})
       length += 1
+  u2f = [j for j in range(n) if pool[j]["fam"].startswith("u2f")]
+  if u2f:
+    bigger = [j for j in range(n) if pool[j]["curve"] in A.curves() and
+              A.curves()[pool[j]["curve"]].bits >
+              A.curves()[pool[u2f[0]]["curve"]].bits]
+    if bigger and r.random() < 0.8:
+      # the CR50 group before and after a larger curve went through the check
+      spec = {"name": "CheckCr50U2f", "how": "registry", "via": "all"}
+      ops.append({"op": "check", "check": spec, "batch": list(u2f),
+                  "oracle": []})
+      ops.append({"op": "check", "check": spec, "batch": bigger[:1],
+                  "oracle": []})
+      ops.append({"op": "check", "check": spec, "batch": list(u2f),
+                  "oracle": [{"relation": "same", "order": list(u2f)}]
+                  if r.random() < f["oracle"] else []})
+      length += 3
   fault_left = 1 if r.random() < f["fault"] else 0
   close = [j for j in range(n) if pool[j]["fam"] == "close_issuer_keys"]
   if close and r.random() < 0.6 and budget > 12:
@@ -922,6 +958,50 @@ def gen_ecdsa(r, tier, f, focus):
   return {"engine": "A", "kind": "ecdsa", "profile": "ecdsa", "focus": focus,
           "knobs": knobs, "pool": pool, "initial_annotations": initial,
           "ops": ops, "timeout": 1500.0}
+
+
+def gen_allcurves(r, tier, f, focus, kind):
+  """Healthy artifacts on every one of the eight supported strong curves in
+  one run (statement of C07), through the cheap checks and one all-checks
+  call."""
+  ids = A.strong_curve_ids()
+  reg = lambda name: {"name": name, "how": "registry", "via": "all"}
+  knobs = {"clock_seed": r.getrandbits(32), "max_diff": 2 ** r.randint(8, 11),
+           "denylist": {}}
+  if kind == "ec":
+    pool = []
+    for cid in ids:
+      for _ in range(r.randint(1, 2)):
+        pool.append(A.ec_healthy(r, A.curves()[cid]))
+    r.shuffle(pool)
+    allb = list(range(len(pool)))
+    ops = [{"op": "check", "check": reg("CheckValidECKey"), "batch": allb,
+            "oracle": []},
+           {"op": "check", "check": reg("CheckWeakCurve"),
+            "batch": r.sample(allb, len(allb)), "oracle": []},
+           {"op": "check", "check": reg("CheckECKeySmallDifference"),
+            "batch": allb, "oracle": []},
+           {"op": "check_all", "batch": r.sample(allb, len(allb)),
+            "log_level": 0, "oracle": []}]
+    return {"engine": "A", "kind": "ec", "profile": "ec_allcurves",
+            "focus": focus, "knobs": knobs, "pool": pool,
+            "initial_annotations": {}, "ops": ops, "timeout": 2400.0}
+  pool = []
+  for k, cid in enumerate(ids):
+    iss = A.Issuer(r, A.curves()[cid], "I%d" % k)
+    pool += iss.healthy(r, r.randint(1, 2))
+  r.shuffle(pool)
+  allb = list(range(len(pool)))
+  ops = [{"op": "check", "check": reg(nm), "batch": r.sample(allb, len(allb)),
+          "oracle": []} for nm in ("CheckNonceMSB", "CheckNonceGeneralized",
+                                   "CheckCr50U2f", "CheckLCGNonceGMP")]
+  ops.append({"op": "check", "check": reg("CheckIssuerKey"), "batch": allb,
+              "issuer_oracle": True, "oracle": []})
+  ops.append({"op": "check_all", "batch": allb, "log_level": 0,
+              "issuer_oracle": True, "oracle": []})
+  return {"engine": "A", "kind": "ecdsa", "profile": "ecdsa_allcurves",
+          "focus": focus, "knobs": knobs, "pool": pool,
+          "initial_annotations": {}, "ops": ops, "timeout": 2400.0}
 
 
 def gen_ecdsa_large(r, tier, f, focus):
